@@ -122,10 +122,11 @@ def availWalk (ds : List Def) (cachedImp : Path → Bool) : List Path → Option
         | none => availWalk ds cachedImp rest
       else availWalk ds cachedImp rest
 
-/-- the entry `compute_available_fixtures` produces for name `n` (first match per class). -/
+/-- the entry `compute_available_fixtures` produces for name `n`: the LAST definition in the file
+    itself (since 48a0862), else the first match per class. -/
 def availPick (ix : List Def) (cimp : Path → String → Bool) (f : Path) (n : String) : Option Def :=
   let ds := defsOf ix n
-  match ds.find? (fun d => d.file == f) with
+  match maxByLine (ds.filter (fun d => d.file == f)) with
   | some d => some d
   | none =>
     match availWalk ds (fun c => cimp c n) (ancestorsOfDir (dirOf f)) with
